@@ -120,6 +120,11 @@ def _act(self, mode: str):
         if (self.context or {}).get(mode.split(':', 1)[1]):
             raise CustomErr(f'flagged {self.name}')
         return
+    if mode == 'raisefrom':
+        try:
+            {}['inner-lookup']
+        except KeyError as inner:
+            raise CustomErr(f'outer {self.name}') from inner
     if mode == 'exit':
         sys.exit(3)
     if mode == 'baseexc':
